@@ -126,6 +126,17 @@ func inheritNamespaces(cursor *InMemory, inherited []Cursor, pos int) int {
 		}
 	}
 
+	// xmlns="" removes the default namespace: it hides the inherited binding
+	// and is not a namespace node itself.
+	for i, c := range cursor.namespaces {
+		ns := c.(*InMemory).node.(node.Namespace)
+
+		if ns.Prefix() == "" && ns.NamespaceValue() == "" {
+			cursor.namespaces = append(cursor.namespaces[:i], cursor.namespaces[i+1:]...)
+			break
+		}
+	}
+
 	return pos
 }
 
